@@ -499,3 +499,5 @@ def _replay(case):
     finally:
         EXTRA_RULES[:] = []
         EXTRA_PATHS[:] = []
+
+MANIFEST['text'] += ' Extension methods (M-SEARCH), the per-route add_method / set_method interface with a single name, and a literal rule below a wildcard rule (overlap shard) are part of the menu (62 operations + 12 in the overlap shard).'
